@@ -173,6 +173,7 @@ def dewL (reg : VReg α) (V : α) (x : List α) (i : Nat) : α :=
 /-- One write-back step of a VLE call, with the solver output as parameter. -/
 inductive VEv (α : Type) where
   | solve (raw : List α)        -- `_solve_v`: raw result of `_solve_v_fixed_point`, then the clip
+  | solveRaw (v : List α)       -- `_solve_v` with `method = 'shgo'`: the optimiser's result is stored as it is (no clip)
   | setFlowsReg                 -- `set_flows(..., self._v, mol_vle)`
   | setFlowsLit (v : List α)    -- `set_flows(..., v, mol)` with a `v` that did not come out of the clip
   | allVap                      -- `vapor_mol[index] = mol_vle ; liquid_mol[index] = 0`
@@ -187,6 +188,7 @@ inductive VEv (α : Type) where
 def vleStep [OfScientific α] (c : Cls α) (st : Rows α × VReg α) : VEv α → Except Err (Rows α × VReg α)
   | .solve raw =>
     .ok (st.1, { st.2 with v := some (tab c.n fun i => clipV (get st.2.mol i) (get raw i)) })
+  | .solveRaw v => .ok (st.1, { st.2 with v := some v })
   | .setFlowsReg =>
     match st.2.v with
     | none => .error .noSolve
